@@ -10,7 +10,10 @@ package main
 //   - whether the token writer's / token reader's methods test the closed bits,
 //   - which functions set each closed bit, which call closeSession, which
 //     touch the output encoder `x.out.e`, and
-//   - the calls made, in order, by Serve's deferred shutdown function.
+//   - the calls made, in order, by Serve's deferred shutdown function,
+//   - (internal/stream/reader.go, negotiator.go) that with WebSocket framing
+//     the peer's <close/> is the end of the stream and that the negotiator
+//     tells the session which framing it uses.
 // Control flow is modelled by hand in coq/C10/Model.v; these tables make a
 // source edit that removes a check or adds an unmodelled writer break a proof
 // obligation (coq/C10/Proofs.v, section "tables").
@@ -180,6 +183,60 @@ func (g *gen) sessClose() {
 		g.errs = append(g.errs, "internal/stream/stream.go: func Send not found")
 	}
 	g.p("Definition sc_send_records_opening_element : bool := %v.\n", sendSetsName)
+
+	// internal/stream/reader.go: with WebSocket framing, the <close/> element of
+	// the framing name space ends the stream (io.EOF) inside the branch that
+	// tests r.ws and the framing name space
+	wsCloseEOF := false
+	if rd := g.parse("internal/stream/reader.go"); rd != nil {
+		for _, d := range rd.Decls {
+			fd, is := d.(*ast.FuncDecl)
+			if !is || fd.Body == nil || scFuncName(fd) != "reader.Token" {
+				continue
+			}
+			ast.Inspect(fd.Body, func(m ast.Node) bool {
+				outer, is := m.(*ast.IfStmt)
+				if !is || len(scMentions(outer.Cond, "ws")) == 0 || len(scMentions(outer.Cond, "wsNamespace")) == 0 {
+					return true
+				}
+				ast.Inspect(outer.Body, func(k ast.Node) bool {
+					inner, is := k.(*ast.IfStmt)
+					if !is {
+						return true
+					}
+					isClose := false
+					ast.Inspect(inner.Cond, func(c ast.Node) bool {
+						if bl, is := c.(*ast.BasicLit); is && bl.Kind == token.STRING && bl.Value == `"close"` {
+							isClose = true
+						}
+						return true
+					})
+					if isClose && len(scMentions(inner.Body, "EOF")) > 0 {
+						wsCloseEOF = true
+					}
+					return true
+				})
+				return true
+			})
+		}
+	}
+	g.p("Definition sc_reader_ws_close_is_eof : bool := %v.\n", wsCloseEOF)
+
+	// negotiator.go: the negotiator records the WebSocket framing on the session
+	negRecordsWS := false
+	if ng := g.parse("negotiator.go"); ng != nil {
+		ast.Inspect(ng, func(m ast.Node) bool {
+			if as, is := m.(*ast.AssignStmt); is {
+				for _, l := range as.Lhs {
+					if c := scSelChain(l); c != nil && scEndsWith(c, "s", "ws") {
+						negRecordsWS = true
+					}
+				}
+			}
+			return true
+		})
+	}
+	g.p("Definition sc_negotiator_records_ws : bool := %v.\n", negRecordsWS)
 
 	// all function declarations of session.go
 	var fds []*ast.FuncDecl
